@@ -338,8 +338,14 @@ class FunctionOnPlot(XYObjectOnPlot):
     @property
     @sts.use_mc_sample_size(10000)
     def yvalues(self):
+        if not self.xrange:
+            raise UndefinedActionError("The domain of this function cannot be found.")
+        # The curve is the function itself: the central values are read before any error method
+        # is imposed on the results. (With the Monte Carlo method requested for the error band
+        # of a fit, the mean of the samples is not the value of the fit function.)
         simplified_result = list(
-            res.value if isinstance(res, dt.DerivedValue) else res for res in self.ydata)
+            res.value if isinstance(res, dt.DerivedValue) else res
+            for res in self.func(self.xvalues))
         return np.asarray(simplified_result)
 
     @property
